@@ -230,6 +230,30 @@ func c08GenCases(rng *rand.Rand, tier string) []Case {
 	out = append(out, Case{ID: "wrap-redelivery", Tags: []string{"boundary"}, Nontrivial: true, Ops: []string{
 		"cfg 2 " + hexs("n1") + " -",
 		"q 1 7 0 " + hexs("q") + " F R", "q " + M + " 8 0 " + hexs("q") + " F R", "q 1 7 0 " + hexs("q") + " F R"}})
+	// tag changes on the SAME node between queries carrying byte-identical filters: every filter
+	// is judged against the tags in effect when the query arrives (seeded C08-e memoised verdicts)
+	{
+		tf := func(tag, expr string) []byte { b, _ := serf.VerifEncodeFilterTag(tag, expr); return b }
+		q := func(lt int, flags int, tags map[string]string, filters ...[]byte) string {
+			return fmt.Sprintf("q %d 7 %d %s %s", lt, flags, hexs("q"), c08Tail(filters, tags))
+		}
+		web, db, none := map[string]string{"role": "web"}, map[string]string{"role": "db"}, map[string]string{}
+		fWeb, fDb, fEmpty, fBad := tf("role", "^web$"), tf("role", "^db$"), tf("role", "^$"), tf("role", "(")
+		out = append(out, Case{ID: "tags-flip", Tags: []string{"tag-change-fixed"}, Nontrivial: true, Ops: []string{
+			"cfg 8 " + hexs("n1") + " " + c08TagsTok(web),
+			q(1, 1, web, fWeb), q(2, 1, web, fDb),
+			"tags " + c08TagsTok(db),
+			q(3, 1, db, fWeb), q(4, 1, db, fDb),
+			"tags " + c08TagsTok(web),
+			q(5, 3, web, fDb), q(6, 0, web, fWeb)}})
+		out = append(out, Case{ID: "tags-removed", Tags: []string{"tag-change-fixed"}, Nontrivial: true, Ops: []string{
+			"cfg 512 " + hexs("node-a") + " " + c08TagsTok(db),
+			q(1, 1, db, fEmpty), q(2, 1, db, fDb, fBad), q(3, 0, db, fDb),
+			"tags " + c08TagsTok(none),
+			q(4, 1, none, fEmpty), q(5, 1, none, fDb), q(6, 1, none, fBad),
+			"tags " + c08TagsTok(db),
+			q(7, 1, db, fEmpty), q(8, 1, db, fDb)}})
+	}
 	nr := 1000
 	if tier == "thorough" {
 		nr = 100000
@@ -251,7 +275,51 @@ func c08GenCases(rng *rand.Rand, tier string) []Case {
 		}
 		nt := false
 		kinds := map[string]bool{}
+		// tag-change mode: SetTags on the same node between the queries, earlier filters re-sent byte for byte
+		tagMode := rng.Intn(3) == 0
+		curTags := map[string]string{}
+		for tk, tv := range nd.tags {
+			curTags[tk] = tv
+		}
+		var usedFilters [][][]byte
 		for j := 0; j < k; j++ {
+			if tagMode && j > 0 && rng.Intn(3) == 0 {
+				next := map[string]string{}
+				for tk, tv := range curTags {
+					next[tk] = tv
+				}
+				switch rng.Intn(6) {
+				case 0:
+					next["role"] = []string{"web", "db", "", "wéb"}[rng.Intn(4)]
+				case 1:
+					next["dc"] = []string{"east", "west", "e.st"}[rng.Intn(3)]
+				case 2:
+					for tk := range next { // drop one tag (the smallest key, for determinism)
+						least := tk
+						for o := range next {
+							if o < least {
+								least = o
+							}
+						}
+						delete(next, least)
+						break
+					}
+				case 3:
+					next["ver"] = []string{"1.2.3", "2.0"}[rng.Intn(2)]
+				case 4:
+					next = map[string]string{}
+					for tk, tv := range nd.tags {
+						next[tk] = tv
+					}
+				default:
+					next["role"], next["dc"] = next["dc"], next["role"]
+				}
+				curTags = next
+				ops = append(ops, "tags "+c08TagsTok(curTags))
+				sent = nil // older lines carry a regex table for the older tags
+				tagset["tag-change"] = true
+				continue
+			}
 			if len(sent) > 0 && rng.Intn(6) == 0 { // exact repeat
 				ops = append(ops, sent[rng.Intn(len(sent))])
 				tagset["repeat"] = true
@@ -286,13 +354,25 @@ func c08GenCases(rng *rand.Rand, tier string) []Case {
 				nf = 0
 			}
 			likely := rng.Intn(5) < 2
+			ndNow := c08Node{nd.name, curTags}
 			for x := 0; x < nf; x++ {
-				b, kind := c08RandFilter(rng, nd)
+				b, kind := c08RandFilter(rng, ndNow)
 				if likely && (x+1 < nf || rng.Intn(3) > 0) { // all but perhaps the last one select the node
-					b, kind = c08LikelyPass(rng, nd)
+					b, kind = c08LikelyPass(rng, ndNow)
 				}
 				filters = append(filters, b)
 				kinds[kind] = true
+			}
+			if tagMode && len(usedFilters) > 0 && rng.Intn(2) == 0 {
+				// the very same filter bytes as an earlier query, at a fresh time so that they decide
+				filters = usedFilters[rng.Intn(len(usedFilters))]
+				nf = len(filters)
+				lt, id = cur, ids[rng.Intn(2)]
+				used[len(used)-1] = lt
+				cur = lt + 1
+				tagset["filter-resent"] = true
+			} else if tagMode && nf > 0 {
+				usedFilters = append(usedFilters, filters)
 			}
 			if nf > 0 {
 				nt = true
@@ -302,7 +382,7 @@ func c08GenCases(rng *rand.Rand, tier string) []Case {
 				tagset["internal-name"] = true
 			}
 			fl := flagsPal[rng.Intn(len(flagsPal))]
-			op := fmt.Sprintf("q %d %d %d %s %s", lt, id, fl, hexs(name), c08Tail(filters, nd.tags))
+			op := fmt.Sprintf("q %d %d %d %s %s", lt, id, fl, hexs(name), c08Tail(filters, curTags))
 			sent = append(sent, op)
 			ops = append(ops, op)
 		}
@@ -345,6 +425,20 @@ func c08Exec(ops []string) []string {
 				continue
 			}
 			node, tags = nd, tg
+			outs = append(outs, "ok")
+		case len(f) == 2 && f[0] == "tags" && node != nil:
+			tg, ok := c08ParseTags(f[1])
+			if !ok {
+				outs = append(outs, "bad-op")
+				continue
+			}
+			// the node keeps running: same buffers, clocks and whatever it remembers about filters
+			if err := node.s.SetTags(tg); err != nil {
+				outs = append(outs, "settags-error")
+				continue
+			}
+			node.drain() // the node's own member-update event
+			tags = tg
 			outs = append(outs, "ok")
 		case len(f) >= 7 && f[0] == "q" && node != nil && f[5] == "F":
 			lt, e1 := strconv.ParseUint(f[1], 10, 64)
@@ -428,7 +522,7 @@ func c08Exec(ops []string) []string {
 func init() {
 	register(&Prop{
 		ID: "C08",
-		Rule: "a real single Serf node per case (serf.Create with node name and tags, recording memberlist transport), QueryBuffer N ∈ {1,2,3,4,8,512}; 1–9 query messages (1 case in 60: 40–100) through NotifyMsg with 0–3 filters each: node lists (containing / not containing / near-misses of the own name, empty list), tag filters (25 patterns incl. invalid ones, exact tag values, missing / empty tags), empty entries, truncated and random bodies, swapped bodies, unknown type bytes; flags from {0,1,2,3,4,5,6,2^32−1,…}; names with and without the _serf_ prefix; exact repeats, same (time,id) with other content, times around the window as in C05. " +
+		Rule: "a real single Serf node per case (serf.Create with node name and tags, recording memberlist transport), QueryBuffer N ∈ {1,2,3,4,8,512}; 1–9 query messages (1 case in 60: 40–100) through NotifyMsg with 0–3 filters each: node lists (containing / not containing / near-misses of the own name, empty list), tag filters (25 patterns incl. invalid ones, exact tag values, missing / empty tags), empty entries, truncated and random bodies, swapped bodies, unknown type bytes; flags from {0,1,2,3,4,5,6,2^32−1,…}; names with and without the _serf_ prefix; exact repeats, same (time,id) with other content, in a third of the cases SetTags on the same node between the queries (role / dc / ver changed, a tag dropped, tags restored or swapped) with earlier filters re-sent byte for byte at fresh times, two fixed tag-flip cases, times around the window as in C05. " +
 			"Filter classes come from Go's msgpack decoder and the regex table from Go's regexp.MatchString (both recomputed and compared at execution). Observed: the application channel, ack packets at the transport (decoded), query queue growth, query clock. non-trivial = at least one query carries a filter; distinct = distinct op sequence",
 		Gen:  c08GenCases,
 		Exec: c08Exec,
